@@ -17,17 +17,27 @@ Code (`actor_properties.rs`, `actor.rs`):
   handled in order and the drain marker, reached after it, ends the actor with reason "Drained".
 
 One actor; granularity: API calls at quiescent points (`poll` = the start task and then the
-actor run until idle). Import-free.
+actor run until idle). Round 4: the start can be split at `pre_start`'s await point — `enter`
+runs the start task until `pre_start` is suspended (status `Starting`), requests arrive in that
+window (a cast is queued; `drain()` closes admission, LIFTS the status to `Draining` — only
+`Unstarted` is exempt — and queues the marker; a stop waits in its port; a kill is seen at once by
+`run_with_signal` and fails the start), then `poll ok|err` lets `pre_start` return. After the
+return `start` links the actor to its supervisor with `SupervisionTree::link_starting`, which
+accepts a child that a drain lifted to `Draining` (fix of round 4: before it the link was
+refused, the start failed with "Supervisor is shutting down" and the accepted casts were
+dropped), so the outcome no longer depends on whether the spawn is linked. The interleavings
+below this granularity are the subject of `Model/EarlyStep.lean`. Import-free.
 -/
 
 namespace Early
 
-inductive Phase | unstarted | running | stopped
+inductive Phase | unstarted | starting | running | stopped
   deriving Repr, DecidableEq
 
 inductive Op
   | cast | drain | stop | kill
-  | poll (ok : Bool)          -- the start task runs; `ok` = what pre_start returns
+  | poll (ok : Bool)          -- the start task runs (on); `ok` = what pre_start returns
+  | enter                     -- the start task runs until pre_start is suspended at its await point
   deriving Repr, DecidableEq
 
 structure S where
@@ -44,8 +54,28 @@ structure S where
   drainCalled : Bool := false       -- ghost
   reason : Option String := none    -- exit reason as the supervisor sees it
   startResult : Option String := none
+  joined : Bool := false            -- the harness has read the start's result
+  lifted : Bool := false            -- a drain found the actor `Starting` and published `Draining`
   next : Nat := 0
   deriving Repr
+
+/-- `pre_start` returns `ok` (a still pending kill wins), then link, loop task, backlog; the
+harness reads the start's result. -/
+def finishStart (s : S) (ok : Bool) : S × String :=
+  let s := { s with joined := true }
+  if s.killReq || !ok then
+    -- killed during start-up / pre_start failed: no running actor, no supervision event
+    ({ s with phase := .stopped, queue := [], marker := false, startResult := some "err:startup-failed" },
+     "start=err:startup-failed")
+  else if s.stopReq then
+    -- the stop request outranks every queued message
+    ({ s with phase := .stopped, queue := [], marker := false, reason := some "T:none", startResult := some "ok" },
+     "start=ok")
+  else
+    let s := { s with handled := s.handled ++ s.queue, queue := [], startResult := some "ok" }
+    if s.marker then
+      ({ s with phase := .stopped, marker := false, reason := some "T:Drained" }, "start=ok")
+    else ({ s with phase := .running }, "start=ok")
 
 /-- result string of the op and the new state -/
 def step (s : S) : Op → S × String
@@ -63,6 +93,9 @@ def step (s : S) : Op → S × String
   | .drain =>
     let s := { s with closed := true, drainCalled := true }
     match s.phase with
+    | .starting =>
+      let s := { s with lifted := true }
+      if s.markerSent then (s, "ok") else ({ s with markerSent := true, marker := true }, "ok")
     | .stopped =>
       if s.markerSent then (s, "ok") else ({ s with markerSent := true }, "err")
     | .running =>
@@ -74,40 +107,45 @@ def step (s : S) : Op → S × String
   | .stop =>
     match s.phase with
     | .unstarted => ({ s with stopReq := true }, "ok")
+    | .starting => ({ s with stopReq := true }, "ok")
     | .running => ({ s with phase := .stopped, reason := some "T:none" }, "ok")
     | .stopped => (s, "ok")
   | .kill =>
     match s.phase with
     | .unstarted => ({ s with killReq := true }, "ok")
+    | .starting =>
+      -- `run_with_signal(pre_start)` sees the kill at once: "Actor killed during startup"
+      ({ s with phase := .stopped, queue := [], marker := false, killReq := true,
+                startResult := some "err:startup-failed" }, "ok")
     | .running => ({ s with phase := .stopped, reason := some "T:killed" }, "ok")
     | .stopped => (s, "ok")
-  | .poll ok =>
+  | .enter =>
     match s.phase with
     | .unstarted =>
-      if s.killReq || !ok then
-        -- killed during start-up / pre_start failed: no running actor, no supervision event
+      if s.killReq then
+        -- the pending kill wins the (biased) select before pre_start is polled
         ({ s with phase := .stopped, queue := [], marker := false, startResult := some "err:startup-failed" },
-         "start=err:startup-failed")
-      else if s.stopReq then
-        -- the stop request outranks every queued message
-        ({ s with phase := .stopped, queue := [], marker := false, reason := some "T:none", startResult := some "ok" },
-         "start=ok")
-      else
-        let s := { s with handled := s.handled ++ s.queue, queue := [], startResult := some "ok" }
-        if s.marker then
-          ({ s with phase := .stopped, marker := false, reason := some "T:Drained" }, "start=ok")
-        else ({ s with phase := .running }, "start=ok")
-    | _ => (s, "start=already")
+         "start-over")
+      else ({ s with phase := .starting }, "entered")
+    | _ => (s, "enter=already")
+  | .poll ok =>
+    match s.phase with
+    | .unstarted => finishStart s ok
+    | .starting => finishStart s ok
+    | _ =>
+      if s.joined then (s, "start=already")
+      else ({ s with joined := true }, "start=" ++ s.startResult.getD "?")
 
 def run (ops : List Op) : S := ops.foldl (fun s op => (step s op).1) {}
 
 /-- nothing but casts, drains and a successful start: no stop, kill or failure intervenes -/
 def undisturbed (ops : List Op) : Bool :=
-  ops.all (fun op => match op with | .cast => true | .drain => true | .poll ok => ok | _ => false)
+  ops.all (fun op => match op with | .cast => true | .drain => true | .poll ok => ok | .enter => true | _ => false)
 
 def showStatus (s : S) : String :=
   match s.phase with
   | .unstarted => "Unstarted"
+  | .starting => if s.lifted then "Draining" else "Starting"
   | .running => "Running"
   | .stopped => "Stopped"
 
